@@ -202,6 +202,34 @@ def run(ctx):
               "forward: mapping[ii]; backward: {v: k for k, v in mapping[ii].items()} over arange(final, initial)[::-1]",
               f"step list ok={okr}, inverse of the same step ok={okm}, point threaded ok={oku}")
 
+    # the walk may only stop on "no vertex" (None): vertex ids are arbitrary integers and 0 is one of them, so a truthiness test of the
+    # current id ends the walk at vertex 0
+    pname = gp.params[1]
+    for e in [x for x in sg.events if x.kind in ("break", "return") and x.loops()]:
+        for c in e.conds():
+            for lit in (c[1] if c[0] in ("or", "and") else (c,)):
+                bare = lit[1] if lit[0] == "not" else lit
+                if bare[0] == "lc" and bare[1] == pname or bare == T.sym(pname):
+                    ctx.violation("GUARD", f"{gp.qualname} / GUARD / the walk stops on a missing vertex (None), not on a falsy id", ctx.where(gp, e.node),
+                                  f"`{gp.module.line(e.node.lineno - 1)[:70].strip()}` tests the truth value of the current vertex id: the walk stops at the vertex whose id is 0 "
+                                  f"and reports 0 instead of its successor")
+    # centre-of-mass shift (cm=True): x is shifted by component 0 and y by component 1 of the SAME frame's centre
+    cmst = [e for e in sym.summarize(repo, cm.qualname).stores() if e.attr in ("x", "y") and not e.sub and e.aug and e.loops()]
+    by_loop = {}
+    for e in cmst:
+        d = T.sub(T.attr(e.base, e.attr), e.value)
+        by_loop.setdefault(e.loops()[-1][1], {})[e.attr] = (d, e)
+    for L_, pair in by_loop.items():
+        if set(pair) != {"x", "y"}:
+            continue
+        (dx, ex), (dy, ey) = pair["x"], pair["y"]
+        if dx[0] == "idx" and dy[0] == "idx" and dx[2][0] == "num" and dy[2][0] == "num":
+            ctx.check(dx[1] == dy[1] and dx[2] == T.num(0) and dy[2] == T.num(1), "SIB",
+                      f"{cm.qualname} / SIB / centre-of-mass shift: x by component 0, y by component 1 of the same centre (loop at line +{ex.node.lineno - cm.node.lineno})",
+                      ctx.where(cm, ey.node), "v.x -= c[0]; v.y -= c[1]",
+                      f"the shift subtracts component {T.show(dx[2])} from x and component {T.show(dy[2])} from y"
+                      f"{'' if dx[1] == dy[1] else ' of different centres'}: with cm=True the frame is displaced and every pairing of it is wrong")
+
     # ------------------------------------------------------------------ incompatible frames
     ctx.clause("incompatible frames give None under the same key")
     trs = [e for e in si.stores("mapping") if e.sub]
